@@ -948,6 +948,61 @@ fn run_keyed(ctl: &Arc<Ctl>, rng: &mut Rng_, ids: &mut Ids, out: &mut Out, n: us
                 }
             }
         }
+        // one manager over a directory that mixes exports under several keys (two distinct non-zero keys, a repeated
+        // key, the zero key), all registered by one call: every model still answers as its original does
+        {
+            let mix = tempfile::tempdir().unwrap();
+            let omix = tempfile::tempdir().unwrap();
+            let mut ms: Vec<(Model, Pool)> = vec![];
+            let nmix = rng.gen_range(3..6usize);
+            let mut kpaths = vec![];
+            for j in 0..nmix {
+                let pj = Pool::new_distinct(rng, 12);
+                let mj = random_model(rng, &pj, &format!("K{i}x{j}"), 3, 2, 4);
+                out.ev("ShBuild", model_json(ids, &mj));
+                let srcj = tempfile::tempdir().unwrap();
+                let pp = to_mem(&mj).write_to_directory(srcj.path()).unwrap();
+                std::fs::copy(&pp, omix.path().join(pp.file_name().unwrap())).unwrap();
+                let sfj = MDBShardFile::load_from_file(&pp).unwrap();
+                let key = [pool.keys[0], pool.keys[1], zero, pool.keys[0], pool.keys[2 % pool.keys.len()]][j % 5];
+                match guarded(|| sfj.export_as_keyed_shard(mix.path(), key, Duration::from_secs(1000), true, true, true)) {
+                    Ok(Ok(kf)) => kpaths.push(kf.path.clone()),
+                    Ok(Err(e)) => out.ev("ShError", json!({"what": format!("export: {e:?}")})),
+                    Err(p) => out.ev("ShPanic", json!({"what": format!("export: {p}")})),
+                }
+                ms.push((mj, pj));
+            }
+            let by_files = rng.gen_bool(0.5);
+            let r: Result<(), String> = rt.block_on(async {
+                let mk = ShardFileManager::new_in_session_directory(mix.path()).await.map_err(|e| format!("{e:?}"))?;
+                if by_files {
+                    mk.register_shards_by_path(&kpaths).await.map_err(|e| format!("{e:?}"))?;
+                } else {
+                    mk.register_shards_by_path(&[mix.path()]).await.map_err(|e| format!("{e:?}"))?;
+                }
+                let mo = ShardFileManager::new_in_session_directory(omix.path()).await.map_err(|e| format!("{e:?}"))?;
+                mo.register_shards_by_path(&[omix.path()]).await.map_err(|e| format!("{e:?}"))?;
+                for (mj, pj) in &ms {
+                    for q in queries(rng, pj, &[mj], 8) {
+                        if q.is_empty() {
+                            continue;
+                        }
+                        let qj: Vec<Value> = q.iter().map(|h| ids.h(h)).collect();
+                        let ak = mk.chunk_hash_dedup_query(&q).await.map_err(|e| format!("{e:?}"))?;
+                        let ao = mo.chunk_hash_dedup_query(&q).await.map_err(|e| format!("{e:?}"))?;
+                        out.ev("ShDedupPair", json!({"orig": mj.sid, "keyed": format!("{}mix", mj.sid), "q": qj, "ans_orig": ans_json(ids, &ao), "ans_keyed": ans_json(ids, &ak)}));
+                    }
+                    for f in &mj.files {
+                        let r = mk.get_file_reconstruction_info(&f.h).await.map_err(|e| format!("{e:?}"))?;
+                        out.ev("ShKeyedFile", json!({"keyed": format!("{}mix", mj.sid), "h": ids.h(&f.h), "found": r.is_some(), "incl_file": true}));
+                    }
+                }
+                Ok(())
+            });
+            if let Err(e) = r {
+                out.ev("ShError", json!({"what": e}));
+            }
+        }
         // expiry: all orderings of now against expiry and expiry + grace, at the exact boundaries
         let t0 = 1_000_000u64 + rng.gen_range(0..1000u64);
         let valid = rng.gen_range(10..100u64);
